@@ -1,0 +1,24 @@
+//go:build verif
+
+// Command goblverif exists only for the verification harness (build tag
+// "verif"): it streams bulk requests from stdin through the bulk processor
+// of internal/cli and writes each response to stdout as soon as it arrives.
+package main
+
+import (
+	"context"
+	"encoding/json"
+	"os"
+
+	"github.com/invopop/gobl/internal/cli"
+)
+
+func main() {
+	enc := json.NewEncoder(os.Stdout)
+	opts := &cli.BulkOptions{In: os.Stdin}
+	for res := range cli.Bulk(context.Background(), opts) {
+		if err := enc.Encode(res); err != nil {
+			os.Exit(1)
+		}
+	}
+}
